@@ -35,6 +35,12 @@ if _OK is not None:
         for _h in _spec["harnesses"]:
             if _h.get("tier", "quick") == "thorough" and _h["name"] not in _OK.get(_p, []):
                 _h["tier"] = "experimental"
+        _nt = sum(1 for _h in _spec["harnesses"] if _h.get("tier", "quick") == "thorough")
+        _ne = sum(1 for _h in _spec["harnesses"] if _h.get("tier", "quick") == "experimental")
+        if _ne and "level_note" in _spec:
+            _spec["level_note"] += (" Tiers: the thorough command runs the quick instances plus %d deeper ones that were decided at least once on the "
+                                    "pinned tree; %d further instances never finished here and are kept as tier 'experimental', which no registered "
+                                    "command runs (where a text above says 'thorough tier tries them', read 'experimental')." % (_nt, _ne))
 
 # ------------------------------------------------------------------------- not applicable
 NOT_APPLICABLE = [
